@@ -21,7 +21,9 @@ LEVEL_TEXT = ("Coq theorems over an exact-rational (missing value = None) model 
               "the float round trip rnd(rnd(s*rnd(rnd(1/s)*rnd(x-l)))+l) is within 4u|x-l|+u|x|+O(u^2) of x in the standard model of floating-point "
               "arithmetic, instantiated for 53-bit round-to-nearest (Flocq FLX); DenseScaledMatrix: untransform inverts transform, unscale/rescale in place keep scale*mat+location; "
               "operations that do not re-standardise (reorder/sort/group_taxa, copies) keep every raw value (un-scaling commutes with selection), the stored column is "
-              "covariant under a change of unit and origin, histories are compositional; "
+              "covariant under a change of unit and origin, histories are compositional; the label keywords of insert/adjoin/append/incorp (taxa= / taxa_grp= explicit or omitted, "
+              "any combination) never influence the values: the operand contributes values.unscale() whichever keywords accompany it, calls differing only in the keywords "
+              "yield the same columns / locations / scales, omitting a keyword = handing over the operand's own label; "
               "the kernel expressions of the source (standardisation, un-scaling, per-summary reduction and un-scaling rule, zero-scale rule, contribution of matrix operands, "
               "numpy call tables of the taxa routines, DenseScaledMatrix updates) are regenerated from the source on every run (Gen/C15_Kernel.v), proved equal to the model's "
               "and the round-trip / scale-rule / covariance laws are proved about the generated definitions; "
@@ -42,6 +44,12 @@ RULE = ("case = (class B/E/G, raw matrix with optional taxa/taxa_grp labels — 
         "re-assignment through the property setters, concat_taxa (self at any position among 0-2 other matrices); 20% of the operations go through the generic "
         "dispatchers (select(..., axis=0/-2) ...); indices as array/list/tuple, int, index list or slice; operands as ndarray or as a second matrix of any of the three classes; "
         "after every step: the source / the operands are unchanged and share no array with the result, matrices left behind are unchanged at the end; "
+        "plus a fixed systematic block (420 cases, `cross`): class B/E/G x routine adjoin/insert/append/incorp x operand kind (ndarray, matrix of the receiver's class, "
+        "the two library subclasses for a B receiver / a run-time subclass of the receiver's class and the base class B for E and G receivers) x receiver labels (taxa+taxa_grp, "
+        "taxa only, taxa_grp only, none) x form (the routine itself / the generic dispatcher with axis 0 and -2), each case running the four combinations of explicit / omitted "
+        "taxa= and taxa_grp= with operand values of order 10^3 (location ~1100 / -500, scale ~100) against a receiver of order 1, matrix operands carrying labels of their own "
+        "wherever the receiver has labels; concat_taxa with such matrices, self first / in the middle / last, class method and generic concat "
+        "(E / G on half-labelled receivers: judged by the predicate only, everything else also inside Coq); "
         "non-trivial = at least 2 operations of which one changes the taxa list of a matrix with >= 2 distinct raw rows; distinct by SHA-256 of the case")
 TRUSTED = ["the rounding-error theorem is about an abstract rounding operator with relative error u (Flocq FLX instance: no overflow/underflow); that numpy's float64 "
            "operations are such roundings is not proved, the predicate checks the bound (with slack 5u(|x-l|+|x|)) on every first-step entry",
@@ -64,6 +72,9 @@ CLS = {"B": ("pybrops.popgen.bvmat.DenseBreedingValueMatrix", "DenseBreedingValu
        "G": ("pybrops.popgen.bvmat.DenseGenomicEstimatedBreedingValueMatrix", "DenseGenomicEstimatedBreedingValueMatrix")}
 # class order for isinstance(values, self.__class__):  E and G derive from B only
 SUBCLASS = {("B", "B"), ("E", "B"), ("G", "B"), ("E", "E"), ("G", "G")}      # (class of values, class of self)
+def _inst(a, cls):
+    """isinstance(operand, class of the receiver); "S" = a subclass of the receiver's own class, defined at run time"""
+    return a == "S" or (a, cls) in SUBCLASS
 STATS = ["tmax", "tmin", "tmean", "trange", "tstd", "tvar"]
 INPLACE = ("append", "incorp", "remove")
 TOL = Fraction(1, 2 ** 30)
@@ -225,7 +236,7 @@ def _gen_bv(rng, tier, more_inplace):
                 ot, og = _labels(rng, ids, k, has_taxa if rng.random() < 0.85 else not has_taxa, has_grp if rng.random() < 0.92 else not has_grp)
                 others.append({"cls": cls if rng.random() < 0.85 else rng.choice(["B", "E", "G"]), "raw": _rows(rng, k, kinds, nanrate, True), "taxa": ot, "grp": og})
             op = {"op": "concat", "others": others, "self_pos": rng.randint(0, len(others))}
-            if all((o["cls"], cls) in SUBCLASS for o in others): n += sum(len(o["raw"]) for o in others)
+            if all(_inst(o["cls"], cls) for o in others): n += sum(len(o["raw"]) for o in others)
         if op["op"] in ROUTED and rng.random() < 0.2:
             op["via"] = rng.choice(["axis0", "axis-2"])                  # through the generic dispatcher  m.select(..., axis = 0) ...
         case["ops"].append(op)
@@ -253,7 +264,7 @@ def _sort_perm(taxa, grp):
 
 def _operand_accepted(op, cls, has_taxa, has_grp):
     """rough guess used only to track the expected size while generating (the real decision is the implementation's)"""
-    if op["as"] != "nd" and (op["as"], cls) not in SUBCLASS: return False
+    if op["as"] != "nd" and not _inst(op["as"], cls): return False
     g = op["agrp"] if op["agrp"] is not None else op.get("vgrp")
     tx = op["ataxa"] if op["ataxa"] is not None else op.get("vtaxa")
     if has_grp and g is None: return False
@@ -281,6 +292,75 @@ def _gen_scaled(rng, tier):
         else:
             ops.append({"op": nm, "inplace": rng.random() < 0.6})
     return {"kind": "scaled", "t": t, "raw": raw, "loc": loc, "sc": sc, "ops": ops}
+
+# ------------------------------------------------------------------ systematic cross of the routines that accept `values`
+KW_COMBOS = ("none", "taxa", "grp", "both")         # which label keywords are given explicitly
+RECV_LABELS = ("tg", "t-", "-g", "--")               # receiver with taxa / with taxa_grp
+def _operand_kinds(cls):
+    """operand kinds crossed for a receiver of class cls: ndarray, a matrix of the same class, two other matrix classes
+    (receiver B: both library subclasses; receiver E / G: a run-time subclass of the receiver's class, and the base class B,
+    which is no instance of the receiver's class)"""
+    return ("nd", cls, "E", "G") if cls == "B" else ("nd", cls, "S", "B")
+
+def _cross_vals(j, k):
+    """k operand rows whose location / scale are far from the receiver's (values of order 1): trait 0 around 1024 + 64 j with a
+    spread of 256, trait 1 around -512 with a spread of 128 (dyadic: the exact regime applies)"""
+    rows = [[1024.0 + 64.0 * j, -512.0 - 8.0 * j], [1280.0 + 64.0 * j, -384.0], [1152.0 + 32.0 * j, -640.0 + 16.0 * j]]
+    return rows[:k]
+
+def _gen_cross():
+    """fixed block: class x routine (adjoin / insert / append / incorp) x operand kind x receiver labels x form (the routine itself /
+    the generic dispatcher with the taxa axis as 0 or -2); inside a case the four combinations of explicit / omitted taxa= and
+    taxa_grp=.  A matrix operand carries labels of its own exactly where the receiver has labels (so that an omitted keyword falls
+    back on them and an explicit one must override them), its values are on a scale far from the receiver's: anything that
+    depends on WHICH keywords were given (un-scaling skipped, labels taken from the wrong place) shows in several cases.
+    Cases of the subclasses on half-labelled receivers are judged by the predicate only (`nocoq`), all others also inside Coq."""
+    cases = []
+    raw0 = [[1.0, -2.5], [3.0, -2.0]]
+    for cls in ("B", "E", "G"):
+        for nm in ("adjoin", "insert", "append", "incorp"):
+            for okind in _operand_kinds(cls):
+                for lab in RECV_LABELS:
+                    for generic in (False, True):
+                        ids = _Ids()
+                        ht, hg = lab[0] == "t", lab[1] == "g"
+                        taxa, grp = (ids.take(2) if ht else None), ([0, 1] if hg else None)
+                        ops = []
+                        for j, kw in enumerate(KW_COMBOS):
+                            k = (2, 1, 1, 2)[j]
+                            op = {"op": nm, "vals": _cross_vals(j + 4 * generic, k), "as": okind}
+                            if nm in ("insert", "incorp"): op["obj"] = [1, 0, -1, [0, 2]][j]       # int positions, one index list (two rows)
+                            if okind == "nd": op["vtaxa"] = op["vgrp"] = None
+                            else:
+                                op["vtaxa"] = ids.take(k) if ht else None
+                                op["vgrp"] = [2] * k if hg else None
+                            op["ataxa"] = ids.take(k) if kw in ("taxa", "both") else None
+                            op["agrp"] = [3 + j % 2] * k if kw in ("grp", "both") else None
+                            if generic: op["via"] = "axis0" if j % 2 == 0 else "axis-2"
+                            ops.append(op)
+                        c = {"kind": "bv", "cls": cls, "t": 2, "raw": [list(r) for r in raw0], "taxa": taxa, "grp": grp, "trait": lab == "tg", "ops": ops,
+                             "cross": "%s/%s/%s/%s" % (nm, "nd" if okind == "nd" else "same" if okind == cls else okind, lab, "generic" if generic else "specific")}
+                        if cls != "B" and lab in ("t-", "-g"): c["nocoq"] = True
+                        cases.append(c)
+        # concat_taxa (no label keywords): the other matrices of the same class / of the other classes, on scales far from self's,
+        # self first / in the middle / last, through the class method and through the generic concat
+        for okind in _operand_kinds(cls)[1:]:
+            for lab in RECV_LABELS:
+                ids = _Ids()
+                ht, hg = lab[0] == "t", lab[1] == "g"
+                taxa, grp = (ids.take(2) if ht else None), ([0, 1] if hg else None)
+                ops = []
+                for j in range(3):
+                    others = [{"cls": okind if i == 0 else cls, "raw": _cross_vals(2 * j + i, 2 - i), "taxa": ids.take(2 - i) if ht else None,
+                               "grp": [2 + i] * (2 - i) if hg else None} for i in range(2 if j == 1 else 1)]
+                    op = {"op": "concat", "others": others, "self_pos": min(j, len(others))}
+                    if j == 1: op["via"] = "axis0"
+                    ops.append(op)
+                c = {"kind": "bv", "cls": cls, "t": 2, "raw": [list(r) for r in raw0], "taxa": taxa, "grp": grp, "trait": False, "ops": ops,
+                     "cross": "concat/%s/%s/both" % ("same" if okind == cls else okind, lab)}
+                if cls != "B" and lab in ("t-", "-g"): c["nocoq"] = True
+                cases.append(c)
+    return cases
 
 WITNESS_CONST = {"kind": "bv", "cls": "B", "t": 1, "raw": [[0.1], [0.1], [0.1]], "taxa": None, "grp": None, "trait": False, "ops": []}
 
@@ -319,11 +399,13 @@ def gen_cases(rng, tier):
         big.append({"kind": "bv", "cls": cls, "t": 2, "raw": raw, "taxa": list(range(n)), "grp": [i % 3 for i in range(n)], "trait": False,
                     "ops": [{"op": "select", "ix": list(range(n - 1, -1, -1))[: n - 1] + [-n], "ixform": "list"}, {"op": "remove", "obj": [n - 1, 0]},
                             {"op": "delete", "obj": {"slice": [None, None, 2]}}, {"op": "sort", "how": "group"}]})
+    cross = _gen_cross()
     for i in range(N):
         if i % 100 == 60 and big: cases.append(big.pop())
+        if cross: cases.append(cross.pop())                        # spread over the shards
         if i % 9 == 8: cases.append(_gen_scaled(rng, tier))
         else: cases.append(_gen_bv(rng, tier, more_inplace=(i % 4 == 3)))
-    return cases
+    return cases + cross
 
 # ------------------------------------------------------------------ implementation driver
 def _hx(x):
@@ -345,8 +427,15 @@ def _gp(g):
 def _untx(a):
     if a is None: return None
     return [None if x is None else int(str(x)[1:]) for x in a]
-def _cls(name):
+_SUBS = {}
+def _cls(name, recv=None):
+    """the class called `name`; "S": a (memoised) direct subclass of the receiver's class `recv`, with nothing overridden"""
     import importlib
+    if name == "S":
+        if recv not in _SUBS:
+            base = _cls(recv)
+            _SUBS[recv] = type("Sub" + base.__name__, (base,), {})
+        return _SUBS[recv]
     m, c = CLS[name]
     return getattr(importlib.import_module(m), c)
 
@@ -381,11 +470,11 @@ def _snapshot(b, trait):
     s["cls"] = type(b).__name__
     return s
 
-def _operand(op, t):
+def _operand(op, t, recv):
     v = _arr(op["vals"], t)
     info = None
     if op["as"] != "nd":
-        v = _cls(op["as"]).from_numpy(v, taxa=_tx(op["vtaxa"]), taxa_grp=_gp(op["vgrp"]))
+        v = _cls(op["as"], recv).from_numpy(v, taxa=_tx(op["vtaxa"]), taxa_grp=_gp(op["vgrp"]))
         info = {"loc": _hx1(v.location), "scale": _hx1(v.scale), "mat": _hx2(v.mat)}
     return v, info
 
@@ -468,7 +557,7 @@ def _run_bv(case):
                     if b.taxa is not None: b.taxa = b.taxa.copy()
                     if b.taxa_grp is not None: b.taxa_grp = b.taxa_grp.copy()
             elif nm in ("insert", "adjoin", "append", "incorp"):
-                v, info = _operand(op, t)
+                v, info = _operand(op, t, case["cls"])
                 if info: rec["vparams"] = info
                 kw = {"taxa": _tx(op["ataxa"]), "taxa_grp": _gp(op["agrp"])}
                 operands = (_arrays_of(v) if info else [v]) + [kw["taxa"], kw["taxa_grp"]]
@@ -478,7 +567,7 @@ def _run_bv(case):
                 elif nm == "append": _call(b, "append", via, v, **kw)
                 else: _call(b, "incorp", via, _ix(op["obj"]), v, **kw)
             elif nm == "concat":
-                ms = [_cls(o["cls"]).from_numpy(_arr(o["raw"], t), taxa=_tx(o["taxa"]), taxa_grp=_gp(o["grp"]), trait=trait) for o in op["others"]]
+                ms = [_cls(o["cls"], case["cls"]).from_numpy(_arr(o["raw"], t), taxa=_tx(o["taxa"]), taxa_grp=_gp(o["grp"]), trait=trait) for o in op["others"]]
                 rec["oparams"] = [{"loc": _hx1(m.location), "scale": _hx1(m.scale), "mat": _hx2(m.mat)} for m in ms]
                 operands = [a for m in ms for a in _arrays_of(m)]
                 ofz = [None if o is None else numpy.array(o, copy=True) for o in operands]
@@ -643,7 +732,7 @@ def _expected(exp, op, cls):
         r = f(exp.rows, vs)
         if r is None: return ("err",)
         either = False
-        if op["as"] != "nd" and (op["as"], cls) not in SUBCLASS: either = True
+        if op["as"] != "nd" and not _inst(op["as"], cls): either = True
         if exp.taxa is not None: taxa = f(exp.taxa, tx if tx is not None else [None] * k)
         else:
             taxa = None
@@ -660,7 +749,7 @@ def _expected(exp, op, cls):
         parts = [(o["cls"], [[_F(v) for v in r] for r in o["raw"]], o["taxa"], o["grp"]) for o in op["others"]]
         parts.insert(op["self_pos"], (cls, exp.rows, exp.taxa, exp.grp))
         rows = [r for p in parts for r in p[1]]
-        either = any((p[0], cls) not in SUBCLASS for p in parts)
+        either = any(not _inst(p[0], cls) for p in parts)
         if all(p[2] is None for p in parts): taxa = None
         else: taxa = [x for p in parts for x in (p[2] if p[2] is not None else [None] * len(p[1]))]
         if all(p[3] is None for p in parts): grp = None
@@ -989,7 +1078,7 @@ def describe(case, out):
             "lifecycle": "+".join(sorted({o["op"] for o in case["ops"] if o["op"] in ("copy", "reorder", "sort")})) or "none",
             "routed": any("via" in o for o in case["ops"]),
             "labels": ("t" if case["taxa"] is not None else "-") + ("g" if case["grp"] is not None else "-"), "errors": min(nerr, 2),
-            "direct": bool(case.get("direct")), "inplace_or_concat": "+".join(sorted({o["op"] for o in case["ops"] if o["op"] in INPLACE + ("concat",)})) or "none"}
+            "direct": bool(case.get("direct")), "cross": case.get("cross", "random/fixed").split("/")[0], "inplace_or_concat": "+".join(sorted({o["op"] for o in case["ops"] if o["op"] in INPLACE + ("concat",)})) or "none"}
 
 def shrink(case, fails0):
     """drop operations from the end, then single operations, while the case still fails for a reason that is not a known finding"""
@@ -1043,7 +1132,7 @@ def _opd(op, rec, t, cls):
     else:
         if "vparams" not in rec: raise ValueError("operand matrix could not be built")
         bvp = "(Some %s)" % _prm(rec["vparams"]["loc"], rec["vparams"]["scale"])
-    return "(mkopd %s %s %s %s %s %s %s %s)" % (_colsf(op["vals"], t), E.nat(len(op["vals"])), bvp, E.b((op["as"], cls) in SUBCLASS),
+    return "(mkopd %s %s %s %s %s %s %s %s)" % (_colsf(op["vals"], t), E.nat(len(op["vals"])), bvp, E.b(_inst(op["as"], cls)),
                                                  _lab(op.get("vtaxa")), _lab(op.get("vgrp")), _lab(op["ataxa"]), _lab(op["agrp"]))
 
 def _emit_bv(case, out):
@@ -1084,7 +1173,7 @@ def _emit_bv(case, out):
             if "oparams" not in rec: raise ValueError("concat operands could not be built")
             ps = ["(mkpart %s %s %s %s %s)" % (_colsf(q["raw"], t), E.nat(len(q["raw"])), _prm(pp["loc"], pp["scale"]), _lab(q["taxa"]), _lab(q["grp"]))
                   for q, pp in zip(op["others"], rec["oparams"])]
-            all_inst = all((q["cls"], cls) in SUBCLASS for q in op["others"])
+            all_inst = all(_inst(q["cls"], cls) for q in op["others"])
             o = "(OConcat %s %s %s)" % (E.b(all_inst), E.lst(ps[:op["self_pos"]], str), E.lst(ps[op["self_pos"]:], str))
         # a failing step has no parameters to give: dummies of the right length, so that the model can only fail for the source's reasons
         prm = E.lst(["(None, None)"] * t, str) if "exc" in rec else _prm(rec["loc"], rec["scale"])
@@ -1130,6 +1219,7 @@ def _emit_scaled(case, out):
 
 def emit_case(case, out):
     if "exc" in out: return "false"
+    if case.get("nocoq"): return None               # part of the systematic cross: judged by the predicate only
     return _emit_bv(case, out) if case["kind"] == "bv" else _emit_scaled(case, out)
 
 # ------------------------------------------------------------------ entry points of the anchored modules (fail closed)
